@@ -57,9 +57,7 @@ def expected_map(op, pre, prev):
         return lambda p: [o[i] + s * (p[i] - o[i]) for i in range(3)]
     if name == "scale_xyz":
         f = [Fr(op[2]), Fr(op[3]), Fr(op[4])]
-        o = resolve(prev, op[5])
-        if o is None:
-            o = pre[0]       # documented default would be the origin; the code takes the first vertex (see notes)
+        o = resolve(prev, op[5]) or [Fr(0)] * 3      # documented default: the origin
         return lambda p: [o[i] + f[i] * (p[i] - o[i]) for i in range(3)]
     if name in ("normalize", "fit"):
         centre = bool(op[2]) if name == "normalize" else False
